@@ -396,7 +396,8 @@ def evaluate(ctx, rep, fam, src, costs, im, mo, bad):
         bad.add("uncertified")
         return
     cost = im.cost
-    productive = [r for r in rules if cm.get(r) is not None]
+    # the added start rule ^ last, so that witnesses name the user's rules
+    productive = sorted((r for r in rules if cm.get(r) is not None), key=lambda r: (r == start_rule, r))
     unprod = [r for r in rules if cm.get(r) is None]
     if any(cm[r][0] > U16MAX or (cm[r][1] or 0) >= U16MAX for r in productive):
         ctx.count("cost_beyond_u16_skipped")
